@@ -109,3 +109,9 @@ pub fn vx_take4<T: Copy>(s: &[T]) -> (r: [T; 4])
 {
     s[..4].try_into().unwrap()
 }
+
+// <[T]>::contains (T4)
+pub assume_specification<T: PartialEq>[ <[T]>::contains ](s: &[T], x: &T) -> (r: bool)
+    ensures
+        T::obeys_eq_spec() ==> r == (exists|i: int| 0 <= i < s.len() && #[trigger] s[i].eq_spec(x)),
+;
